@@ -1138,7 +1138,7 @@ Library read_gds(const char* filename, double unit, double tolerance, const Set<
                         for (uint64_t i = data_length; i > 0; i--) *d++ = factor * (*s++);
                         point_array.count += data_length / 2;
                     }
-                    path->segment(point_array, NULL, NULL, false);
+                    if (point_array.count > 0) path->segment(point_array, NULL, NULL, false);
                     point_array.clear();
                 } else if (reference) {
                     Vec2 origin = Vec2{factor * data32[0], factor * data32[1]};
